@@ -194,8 +194,9 @@ def gen_file(rnd, mode, focus):
                 t = rnd.choice(['field.proj', 'field.memo', 'extract(field.memo, "PROJ:(\\\\w+)")', 'amount * 2'])
             lets.append((ln, t))
             names = names + [ln]
-        if focus == 'c09' and shared is not None and rnd.random() < 0.35:
-            text, pat, kinds, lits = shared          # byte-identical expression in two rules: exact ties / priority decides
+        if focus in ('c09', 'c08') and shared is not None and rnd.random() < 0.35:
+            text, pat, kinds, lits = shared          # byte-identical expression in two rules: exact ties / priority decides; each
+            # rule reads it with ITS OWN let: bindings (one rule's failure says nothing about the other's)
         else:
             text, pat, kinds, lits = gen_cond(rnd, strict, names, p_fail=p_fail)
             # the outermost parentheses are optional
